@@ -13,9 +13,10 @@ open Relic Relic.Tsa
 
 /-- The conjunction `tsClient.do` + `ParseResponse` + `SanityCheckToken` check on an RFC 3161 reply:
 HTTP 200, well-formed without trailing bytes, status granted / grantedWithMods, token signed
-(self-consistently), nonce echoed, imprint equal to the request's (and, once `algChecked`, same algorithm). -/
+(self-consistently: its messageDigest attribute matches its own content, `mdOK`, and the signature over the
+attributes verifies, `sigOK`), nonce echoed, imprint equal to the request's (and, once `algChecked`, same algorithm). -/
 def Genuine (c : Cfg) (r : Req) (w : Wire) (t : Token) : Prop :=
-  ∃ st i, w = .http 200 (.der st t false) ∧ st ≤ 1 ∧ t.content = .tst i ∧ t.nSigners ≠ 0 ∧ t.sigOK = true ∧
+  ∃ st i, w = .http 200 (.der st t false) ∧ st ≤ 1 ∧ t.content = .tst i ∧ t.nSigners ≠ 0 ∧ t.mdOK = true ∧ t.sigOK = true ∧
     i.nonce = some r.nonce ∧ i.imprint = r.imprint ∧ (c.algChecked = true → i.algOK = true)
 
 theorem accept_iff (c : Cfg) (r : Req) (w : Wire) (t : Token) (hr : r.legacy = false) :
@@ -54,7 +55,8 @@ theorem accept_iff (c : Cfg) (r : Req) (w : Wire) (t : Token) (hr : r.legacy = f
                 split at hv <;> try (simp at hv; done)
                 split at hv <;> try (simp at hv; done)
                 split at hv <;> try (simp at hv; done)
-                rename_i hab hns hso
+                split at hv <;> try (simp at hv; done)
+                rename_i hab hns hmd hso
                 split at h <;> try (simp at h; done)
                 rename_i i hu
                 split at h
@@ -69,24 +71,25 @@ theorem accept_iff (c : Cfg) (r : Req) (w : Wire) (t : Token) (hr : r.legacy = f
                   have hcont : t'.content = .tst i := by
                     unfold unpack at hu
                     split at hu <;> (try split at hu) <;> simp_all
-                  refine ⟨st, i, ?_, by omega, hcont, hns, by simpa using hso, ?_, by simpa using hie, ?_⟩
+                  refine ⟨st, i, ?_, by omega, hcont, hns, by simpa using hmd, by simpa using hso, ?_, by simpa using hie, ?_⟩
                   · simp_all
                   · have : n = r.nonce := by simpa using hne
                     simp [hn, this]
                   · intro hac
                     simp [hac] at hal
                     exact hal
-  · rintro ⟨st, i, hw, hst, hcont, hns, hsig, hn, himp, halg⟩
+  · rintro ⟨st, i, hw, hst, hcont, hns, hmd, hsig, hn, himp, halg⟩
     subst hw
     have h1 : ¬ st > 1 := by omega
-    simp only [doOne, parseBody, hr, sanityCheck, p7Verify, unpack, hcont, hns, hsig, hn, himp, h1]
+    simp only [doOne, parseBody, hr, sanityCheck, p7Verify, unpack, hcont, hns, hmd, hsig, hn, himp, h1]
     cases hac : c.algChecked
     · simp
     · simp [halg hac]
 
 /-- the legacy (Microsoft) style once the client verifies the reply (`legacyChecked`) -/
 def GenuineLegacy (r : Req) (w : Wire) (t : Token) : Prop :=
-  w = .http 200 (.b64 (some t)) ∧ t.content = .data r.imprint ∧ t.nSigners ≠ 0 ∧ t.sigOK = true ∧ t.sigTime ≠ none
+  w = .http 200 (.b64 (some t)) ∧ t.content = .data r.imprint ∧ t.nSigners ≠ 0 ∧ t.mdOK = true ∧
+    t.sigOK = true ∧ t.sigTime ≠ none
 
 theorem accept_legacy_iff (c : Cfg) (r : Req) (w : Wire) (t : Token) (hr : r.legacy = true)
     (hc : c.legacyChecked = true) : doOne c r w = .ok t ↔ GenuineLegacy r w t := by
@@ -122,21 +125,22 @@ theorem accept_legacy_iff (c : Cfg) (r : Req) (w : Wire) (t : Token) (hr : r.leg
             split at hp <;> try (simp at hp; done)
             split at hp <;> try (simp at hp; done)
             split at hp <;> try (simp at hp; done)
-            rename_i hab hns hso
+            split at hp <;> try (simp at hp; done)
+            rename_i hab hns hmd hso
             split at hv <;> try (simp at hv; done)
             rename_i hd
             split at hv <;> try (simp at hv; done)
             rename_i tm hst
-            refine ⟨rfl, by simpa using hd, hns, by simpa using hso, by simp [hst]⟩
-  · rintro ⟨hw, hcont, hns, hsig, htime⟩
+            refine ⟨rfl, by simpa using hd, hns, by simpa using hmd, by simpa using hso, by simp [hst]⟩
+  · rintro ⟨hw, hcont, hns, hmd, hsig, htime⟩
     subst hw
     cases hst : t.sigTime with
     | none => exact absurd hst htime
-    | some tm => simp [doOne, parseBody, hr, hc, verifyMsToken, p7Verify, hcont, hns, hsig, hst]
+    | some tm => simp [doOne, parseBody, hr, hc, verifyMsToken, p7Verify, hcont, hns, hmd, hsig, hst]
 
-example : Genuine Cfg.fixed ⟨false, 7, 1100⟩ (.http 200 (.der 0 ⟨1, true, 1, true, .tst ⟨some 7, 1100, true, some 0⟩, none, 1⟩ false))
-    ⟨1, true, 1, true, .tst ⟨some 7, 1100, true, some 0⟩, none, 1⟩ :=
-  ⟨0, ⟨some 7, 1100, true, some 0⟩, rfl, by decide, rfl, by decide, rfl, rfl, rfl, fun _ => rfl⟩
+example : Genuine Cfg.fixed ⟨false, 7, 1100⟩ (.http 200 (.der 0 ⟨1, true, 1, true, .tst ⟨some 7, 1100, true, some 0⟩, none, 1, true⟩ false))
+    ⟨1, true, 1, true, .tst ⟨some 7, 1100, true, some 0⟩, none, 1, true⟩ :=
+  ⟨0, ⟨some 7, 1100, true, some 0⟩, rfl, by decide, rfl, by decide, rfl, rfl, rfl, rfl, fun _ => rfl⟩
 
 /-! ## 2. Ordered failover -/
 
@@ -193,7 +197,7 @@ theorem failover_order (c : Cfg) (r : Req) (pre : Bool) (ws : List Wire) :
     | false => simp [tryFrom_contacted, List.range_eq_range']
 
 example : (timestamp Cfg.fixed ⟨false, 7, 1100⟩ false
-    [.http 500 .garbage, .reset, .http 200 (.der 0 ⟨1, true, 1, true, .tst ⟨some 7, 1100, true, some 0⟩, none, 1⟩ false), .reset]).contacted
+    [.http 500 .garbage, .reset, .http 200 (.der 0 ⟨1, true, 1, true, .tst ⟨some 7, 1100, true, some 0⟩, none, 1, true⟩ false), .reset]).contacted
     = [0, 1, 2] := by decide
 
 /-! ## 3. Attaching -/
@@ -276,7 +280,7 @@ theorem moved_countersig_rejected (H : Nat → Nat) (g : Bool) (a : Artefact) (t
   rw [hat] at ht'
   have : t = t' := by simpa using ht'
   subst this
-  rcases hcov.2 with ⟨i, hc, hi, _⟩ | hd
+  rcases hcov.2.2 with ⟨i, hc, hi, _⟩ | hd
   · rcases hbound with ⟨i', hc', hi'⟩ | hd'
     · rw [hc] at hc'
       have : i = i' := by simpa using hc'
@@ -289,10 +293,50 @@ theorem moved_countersig_rejected (H : Nat → Nat) (g : Bool) (a : Artefact) (t
       have : a.encDigest = other := by simpa using hd'
       exact hne this.symm
 
-example : verifyAttach (· + 1000) true ⟨100, 10, .tsToken ⟨1, true, 1, true, .tst ⟨some 7, 1100, true, some 0⟩, none, 1⟩⟩
+example : verifyAttach (· + 1000) true ⟨100, 10, .tsToken ⟨1, true, 1, true, .tst ⟨some 7, 1100, true, some 0⟩, none, 1, true⟩⟩
     = .ok (some ⟨some 0, 1, 1⟩) := by decide
-example : verifyAttach (· + 1000) true ⟨100, 10, .tsToken ⟨1, true, 1, true, .tst ⟨some 7, 1200, true, some 0⟩, none, 1⟩⟩
+example : verifyAttach (· + 1000) true ⟨100, 10, .tsToken ⟨1, true, 1, true, .tst ⟨some 7, 1200, true, some 0⟩, none, 1, true⟩⟩
     = .err "imprint" := by decide
+
+/-- **transplant_rejected** — a token whose messageDigest attribute does not match its embedded content (a
+genuine legacy token issued for another value whose content was swapped) fails its own verification,
+whatever signature value it is compared with: `SignedData.Verify` reports the digest mismatch before the
+signature, the content comparison and the signing time are looked at. -/
+theorem transplant_rejected (t : Token) (hm : t.mdOK = false) (hc : t.content ≠ .absent) (hns : t.nSigners ≠ 0) :
+    ∀ ed, verifyMsToken t ed = .err "digest" := by
+  intro ed
+  simp [verifyMsToken, p7Verify, hm, hc, hns]
+
+/-- hence no attribute kind yields a countersignature from such a token (by `countersig_binds`) -/
+theorem transplant_never_countersig (H : Nat → Nat) (g : Bool) (a : Artefact) (t : Token)
+    (hat : a.attach.token? = some t) (hm : t.mdOK = false) : ∀ cs, verifyAttach H g a ≠ .ok (some cs) := by
+  intro cs h
+  obtain ⟨t', ht', hcov, _⟩ := countersig_binds H g a cs h
+  rw [hat] at ht'
+  have : t = t' := by simpa using ht'
+  subst this
+  rw [hcov.2.1] at hm
+  exact absurd hm (by decide)
+
+/-- and a client that verifies the legacy reply (`legacyChecked`) answers the transplanted token with an
+ordinary error that does not stop the loop: the next configured authority is tried -/
+theorem transplant_fails_over (c : Cfg) (r : Req) (t : Token) (hr : r.legacy = true) (hl : c.legacyChecked = true)
+    (hm : t.mdOK = false) (hc : t.content ≠ .absent) (hns : t.nSigners ≠ 0) :
+    doOne c r (.http 200 (.b64 (some t))) = .err "digest" ∧ stops c r (.http 200 (.b64 (some t))) = false := by
+  have h : doOne c r (.http 200 (.b64 (some t))) = .err "digest" := by
+    simp [doOne, parseBody, hr, hl, transplant_rejected t hm hc hns r.imprint]
+  exact ⟨h, by simp [stops, h]⟩
+
+/-- non-vacuity: the transplanted token names the right value and is correctly signed, and is still rejected;
+with a second authority the signature carries the second one's token -/
+example : verifyMsToken { (⟨1, false, 1, true, .data 100, some (some 0), 1, true⟩ : Token) with mdOK := false } 100
+    = .err "digest" := by decide
+example :
+    let good : Token := ⟨2, false, 1, true, .data 100, some (some 0), 1, true⟩
+    let so := sign (· + 1000) Cfg.fixed ⟨true, false, false, true⟩ .manifest true false 7 100 10
+      [.http 200 (.b64 (some { good with serial := 1, mdOK := false })), .http 200 (.b64 (some good))]
+    so.res = .ok ⟨100, 10, .manifestTs good⟩ ∧ so.outcome.contacted = [0, 1] ∧ so.outcome.errs = ["digest"] := by
+  decide
 
 /-- **attach_only_if_genuine** — a signing operation that succeeds with time-stamping wanted carries the
 token of the *first* authority whose reply the client accepted; every authority before it was tried and
@@ -353,7 +397,7 @@ theorem never_silently_omitted (H : Nat → Nat) (c : Cfg) (s : SignCfg) (flow :
 
 /-- non-vacuity: one failed authority, then a genuine one: the signature carries the second one's token -/
 example :
-    let good : Token := ⟨2, true, 1, true, .tst ⟨some 7, 1100, true, some 0⟩, none, 1⟩
+    let good : Token := ⟨2, true, 1, true, .tst ⟨some 7, 1100, true, some 0⟩, none, 1, true⟩
     (sign (· + 1000) Cfg.fixed ⟨true, false, false, true⟩ .p7 false false 7 100 10
       [.http 200 (.der 0 { good with content := .tst ⟨some 8, 1100, true, some 0⟩ } false), .http 200 (.der 0 good false)]).res
       = .ok ⟨100, 10, .tsToken good⟩ := by decide
@@ -451,7 +495,7 @@ theorem cache_failure_not_stored (up : Bool) (st : Store) (k : Key) (inner : Out
 
 /-- non-vacuity: second request for the same key is served from the cache -/
 example :
-    let t : Token := ⟨2, true, 1, true, .tst ⟨some 7, 1100, true, some 0⟩, none, 1⟩
+    let t : Token := ⟨2, true, 1, true, .tst ⟨some 7, 1100, true, some 0⟩, none, 1, true⟩
     let k : Key := ⟨false, 0, 5, 100⟩
     let inner : Outcome := ⟨.ok (.url 0, t), [0], []⟩
     (cachedTimestamp true (cachedTimestamp true [] k inner).2 k inner).1 = ⟨.ok (.cache, t), [], []⟩ := by decide
@@ -475,20 +519,21 @@ theorem cached_token_still_checked (H : Nat → Nat) (g : Bool) (flow : Flow) (e
 
 /-! ## 6. The unchanged tree: proved deviations (each replayed on the real code by the harness) -/
 
-def validTok (n imp : Nat) : Token := ⟨1, true, 1, true, .tst ⟨some n, imp, true, some 0⟩, none, 1⟩
+def validTok (n imp : Nat) : Token := ⟨1, true, 1, true, .tst ⟨some n, imp, true, some 0⟩, none, 1, true⟩
 
 /-- **absent_nonce_panics** (F11) — a granted, correctly signed reply whose TSTInfo omits the optional nonce
 reaches `req.Nonce.Cmp(nil)`: nil dereference instead of an error; the next authority is never tried. -/
 theorem absent_nonce_panics (r : Req) (hr : r.legacy = false) (t : Token) (i : TstInfo)
-    (hc : t.content = .tst i) (hn : i.nonce = none) (hs : t.sigOK = true) (hns : t.nSigners ≠ 0) (ws : List Wire) :
+    (hc : t.content = .tst i) (hn : i.nonce = none) (hm : t.mdOK = true) (hs : t.sigOK = true) (hns : t.nSigners ≠ 0)
+    (ws : List Wire) :
     (timestamp Cfg.asIs r false (.http 200 (.der 0 t false) :: ws)).res = .panic "nil-deref" := by
-  simp [timestamp, tryFrom, doOne, parseBody, hr, sanityCheck, p7Verify, unpack, hc, hn, hs, hns, Cfg.asIs]
+  simp [timestamp, tryFrom, doOne, parseBody, hr, sanityCheck, p7Verify, unpack, hc, hn, hm, hs, hns, Cfg.asIs]
 
 /-- (F11, second site) zero-length eContent: `unpackTokenInfo` indexes byte 0 -/
 theorem empty_content_panics (r : Req) (hr : r.legacy = false) (t : Token)
-    (hc : t.content = .empty) (hs : t.sigOK = true) (hns : t.nSigners ≠ 0) (ws : List Wire) :
+    (hc : t.content = .empty) (hm : t.mdOK = true) (hs : t.sigOK = true) (hns : t.nSigners ≠ 0) (ws : List Wire) :
     (timestamp Cfg.asIs r false (.http 200 (.der 0 t false) :: ws)).res = .panic "index" := by
-  simp [timestamp, tryFrom, doOne, parseBody, hr, sanityCheck, p7Verify, unpack, hc, hs, hns, Cfg.asIs]
+  simp [timestamp, tryFrom, doOne, parseBody, hr, sanityCheck, p7Verify, unpack, hc, hm, hs, hns, Cfg.asIs]
 
 /-- the same zero-length content in an *attached* token crashes the verifier (`pkcs9.Verify`) -/
 theorem empty_content_panics_verifier (H : Nat → Nat) (t : Token) (ed leaf : Nat)
@@ -539,9 +584,9 @@ theorem failover_total (c : Cfg) (hg : c.guards = true) (hl : c.legacyChecked = 
         cases hleg : r.legacy with
         | true => simpa using (accept_legacy_iff c r w t hleg hl).1 hok
         | false =>
-          obtain ⟨st, i, h1, h2, h3, h4, h5, h6, h7, h8⟩ := (accept_iff c r w t hleg).1 hok
+          obtain ⟨st, i, h1, h2, h3, h4, h4', h5, h6, h7, h8⟩ := (accept_iff c r w t hleg).1 hok
           simp only [Bool.false_eq_true, if_false]
-          exact ⟨st, i, h1, h2, h3, h4, h5, h6, h7, fun _ => h8 ha⟩
+          exact ⟨st, i, h1, h2, h3, h4, h4', h5, h6, h7, fun _ => h8 ha⟩
       · exact hnc hc)
   omega
 
@@ -549,8 +594,8 @@ theorem failover_total (c : Cfg) (hg : c.guards = true) (hl : c.legacyChecked = 
 the mismatch is only found by the self-check after attachment, and signing fails although the second
 authority would have served (URL 1 is never contacted). -/
 theorem legacy_unverified_no_failover :
-    let bad : Token := ⟨1, false, 1, true, .data 101, some (some 0), 1⟩
-    let good : Token := ⟨2, false, 1, true, .data 100, some (some 0), 1⟩
+    let bad : Token := ⟨1, false, 1, true, .data 101, some (some 0), 1, true⟩
+    let good : Token := ⟨2, false, 1, true, .data 100, some (some 0), 1, true⟩
     let so := sign (· + 1000) Cfg.asIs ⟨true, false, false, true⟩ .manifest true false 7 100 10
       [.http 200 (.b64 (some bad)), .http 200 (.b64 (some good))]
     so.res = .err "selfcheck:imprint" ∧ so.outcome.contacted = [0] := by
@@ -559,20 +604,20 @@ theorem legacy_unverified_no_failover :
 theorem failover_total_fails_asIs : ¬ failover_total_full Cfg.asIs := by
   intro h
   have h1 := h ⟨true, 7, 100⟩
-    [.http 200 (.b64 (some ⟨1, false, 1, true, .data 101, some (some 0), 1⟩)),
-     .http 200 (.b64 (some ⟨2, false, 1, true, .data 100, some (some 0), 1⟩))] 1 (by decide)
+    [.http 200 (.b64 (some ⟨1, false, 1, true, .data 101, some (some 0), 1, true⟩)),
+     .http 200 (.b64 (some ⟨2, false, 1, true, .data 100, some (some 0), 1, true⟩))] 1 (by decide)
     (by
       intro j w hj hw
       have hj0 : j = 0 := by omega
       subst hj0
-      have hw' : w = .http 200 (.b64 (some ⟨1, false, 1, true, .data 101, some (some 0), 1⟩)) := by
+      have hw' : w = .http 200 (.b64 (some ⟨1, false, 1, true, .data 101, some (some 0), 1, true⟩)) := by
         simpa using hw.symm
       subst hw'
       refine ⟨?_, by decide⟩
       rintro ⟨t, ht⟩
       simp only [if_true, GenuineLegacy] at ht
       obtain ⟨hw1, hc, _⟩ := ht
-      have : t = ⟨1, false, 1, true, .data 101, some (some 0), 1⟩ := by simpa using hw1.symm
+      have : t = ⟨1, false, 1, true, .data 101, some (some 0), 1, true⟩ := by simpa using hw1.symm
       subst this
       simp at hc)
   revert h1
@@ -582,7 +627,7 @@ theorem failover_total_fails_asIs : ¬ failover_total_full Cfg.asIs := by
 compares only the bytes; `MessageImprint.Verify` in the self-check then fails and no other authority is tried -/
 theorem alg_unchecked_no_failover :
     let so := sign (· + 1000) Cfg.asIs ⟨true, false, false, true⟩ .p7 false false 7 100 10
-      [.http 200 (.der 0 ⟨1, true, 1, true, .tst ⟨some 7, 1100, false, some 0⟩, none, 1⟩ false),
+      [.http 200 (.der 0 ⟨1, true, 1, true, .tst ⟨some 7, 1100, false, some 0⟩, none, 1, true⟩ false),
        .http 200 (.der 0 (validTok 7 1100) false)]
     so.res = .err "selfcheck:imprint" ∧ so.outcome.contacted = [0] := by
   decide
